@@ -218,6 +218,29 @@ def judge(W, run, trace):
             if is_err(out) or out.get("nums") != exp or not out.get("same") or not out.get("distinct"):
                 v(i, "iter", "wrong_order_or_members", {"nums": exp, "same": True, "distinct": True}, out, role)
             continue
+        if k == "iter_interleaved":
+            tbl, Z, what = ev[1], ev[2], ev[4]
+            if tbl not in m.tables:
+                continue
+            role = "public" if tbl == "public" else "private"
+            before = set(V.Z) if Z is None else set(m.isotopes(tbl, Z))
+            if what == "add_isotope":
+                m.added.setdefault((tbl, Z if Z is not None else 26), set()).add(ev[5])
+                bump("add_isotope_during_iteration")
+            elif what == "init_mass" and tbl != "public":
+                m.tables[tbl] = True
+            after = set(V.Z) if Z is None else set(m.isotopes(tbl, Z))
+            if is_err(out):
+                v(i, "iter_interleaved", "exception:" + out[1], "a list", out, role)
+                continue
+            # every member present from the start is visited exactly once, in increasing order;
+            # members that appear while the loop runs are visited at most once
+            nums = out.get("nums") or []
+            ok = out.get("same") and out.get("increasing") and before <= set(nums) <= after
+            if not ok:
+                v(i, "iter_interleaved", "wrong_order_or_members",
+                  {"superset_of": sorted(before), "subset_of": sorted(after), "increasing": True, "same": True}, out, role)
+            continue
         if k == "add_isotope":
             tbl, Z, A = ev[1], ev[2], ev[3]
             if tbl not in m.tables:
